@@ -123,7 +123,28 @@ class Anchors:
 
     @property
     def f_subscribers(self):
-        return self.cached("f_subs", lambda: self.field_by_type(self.store, lambda t: "Subscriber<" in t and "dyn " in t and "Vec<" in t, "subscriber list")["name"])
+        def find():
+            pred = lambda t: "Subscriber<" in t and "dyn " in t and "Vec<" in t
+            hits = [f for f in self.fields(self.store) if pred(f["ty"])]
+            if len(hits) > 1:
+                # a second field of that shape (a reusable snapshot buffer, a cached snapshot):
+                # the list is the one registration pushes into
+                try:
+                    add = self.method("StoreImpl", "add_subscriber")
+                    bp = self.p.bp(add)
+                    pushed = set()
+                    for s in self.p.sites(add):
+                        if s.ck in ("std::vec::Vec::push", "std::vec::Vec::insert", "std::collections::VecDeque::push_back"):
+                            for st in subterms(bp.arg_term(s.bb, 0)):
+                                if st[0] == "field" and strip_wrap(st[1]) == ("param", 1):
+                                    pushed.add(st[2])
+                    sel = [f for f in hits if f["name"] in pushed]
+                    if len(sel) == 1:
+                        return sel[0]["name"]
+                except AnchorMissing:
+                    pass
+            return self.field_by_type(self.store, pred, "subscriber list")["name"]
+        return self.cached("f_subs", find)
 
     @property
     def f_tx(self):
